@@ -8,8 +8,12 @@ Open Scope Z_scope.
 
 (* what the end-to-end driver sees of the wrapper: is the remote in the peer registry, the
    notifier.Connected calls, the block placed on the remote (-1 none, 0 for ever, else ns; -3 when
-   BlockedPeers cannot show it because the remote's peer id has no Ethereum address) *)
-Record wrapobs := { w_registered : bool; w_notified : list (bytes * Z); w_block : Z }.
+   BlockedPeers cannot show it because the remote's peer id has no Ethereum address), whether the
+   transport connection to the remote was closed (seen from the remote's host, within a bound), and --
+   when the remote is registered -- the record a follow-up Connect returns through the isConnected
+   short cut (the registry's own (address, role)) and whether that follow-up started a handshake *)
+Record wrapobs := { w_registered : bool; w_notified : list (bytes * Z); w_block : Z;
+                    w_closed : bool; w_record : option (bytes * Z); w_second_hs : bool }.
 
 Record case := {
   id : N;
@@ -22,7 +26,8 @@ Record case := {
   pid : pres;               (* address of the transport peer id, computed by the driver *)
   staked : list bytes;      (* addresses for which the scripted registry answers yes *)
   (* observation *)
-  o_res : N;                (* 0 enrolled; 1..7 refusal class; 8 refused, class not visible; 9 panic *)
+  o_res : N;                (* 0 enrolled; 1..7 refusal class; 8 refused, class not visible; 9 panic;
+                               10 the exchange did not complete within the bound *)
   o_addr : bytes; o_role : Z;
   o_written : list wframe; o_lookups : list bytes; o_verifies : list (bytes * bytes);
   o_wrap : option wrapobs
@@ -99,6 +104,29 @@ Definition eff_block (l : list effect) : Z :=
   | [] => -1
   end.
 
+Definition eff_closed (l : list effect) : bool :=
+  existsb (fun e => match e with EClosePeer => true | _ => false end) l.
+
+(* the event of model/Handshake.v's node machine that an end-to-end case realises (fresh Service:
+   no entry before; the connection is open when addPeer runs) *)
+Definition event_of (c : case) : event :=
+  if (dir c =? 0)%N then EvInbound (oracles_of c) (wfail_of c) (script c) true false
+  else EvConnect (oracles_of c) (wfail_of c) (script c) false.
+Definition entry_of (c : case) : option (bytes * Z) := fst (node_step (cfg c) None (event_of c)).
+(* what a follow-up Connect does on that entry: the short cut returns the entry, no handshake *)
+Definition follow_up (c : case) : list effect :=
+  match entry_of c with
+  | Some _ => snd (node_step (cfg c) (entry_of c) (EvConnect (oracles_of c) (wfail_of c) [] false))
+  | None => []
+  end.
+Definition returned_of (l : list effect) : option (bytes * Z) :=
+  match flat_map (fun e => match e with EReturnPeer a t => [(a, t)] | _ => [] end) l with
+  | p :: _ => Some p
+  | [] => None
+  end.
+Definition opt_note_eqb (a b : option (bytes * Z)) : bool :=
+  match a, b with Some x, Some y => note_eqb x y | None, None => true | _, _ => false end.
+
 Definition wrap_agrees (c : case) : bool :=
   match o_wrap c with
   | None => (mode c =? 0)%N
@@ -106,7 +134,10 @@ Definition wrap_agrees (c : case) : bool :=
       let e := model_effects c in
       Bool.eqb (w_registered w) (eff_registered e) &&
       list_eqb note_eqb (w_notified w) (eff_notified e) &&
-      ((w_block w =? -3) || (w_block w =? eff_block e))   (* -3: not observable (remote without address) *)
+      ((w_block w =? -3) || (w_block w =? eff_block e)) &&   (* -3: not observable (remote without address) *)
+      Bool.eqb (w_closed w) (eff_closed e) &&
+      opt_note_eqb (w_record w) (returned_of (follow_up c)) &&
+      negb (w_second_hs w)
   end.
 
 (* every signature question the model asks must have been answered by the driver *)
@@ -169,11 +200,19 @@ Definition violation (c : case) : list string :=
     match o_wrap c with
     | None => []
     | Some w =>
-        if (o_res c =? 0)%N then
-          flat_map (fun n => match enrol_violation c (fst n) (snd n) with Some k => [k] | None => [] end)
-                   (w_notified w)
-        else if w_registered w || negb (list_eqb note_eqb (w_notified w) [])
-        then ["effect-on-refusal"%string] else []
+        (* the registry's own record, read back through Connect's short cut *)
+        match w_record w with
+        | Some n => match enrol_violation c (fst n) (snd n) with Some k => [k] | None => [] end
+        | None => []
+        end ++
+        (if (o_res c =? 0)%N then
+           flat_map (fun n => match enrol_violation c (fst n) (snd n) with Some k => [k] | None => [] end)
+                    (w_notified w)
+         else
+           (if w_registered w || negb (list_eqb note_eqb (w_notified w) [])
+            then ["effect-on-refusal"%string] else []) ++
+           (* "ends with the connection refused": the transport connection must be gone *)
+           (if w_closed w then [] else ["refused-left-open"%string]))
     end in
   direct ++ wrapped.
 
